@@ -55,9 +55,82 @@ def _r5_debt(ctx):
         ctx.floor("R5", "stores of the bucket level in deplete", n, 1)
 
 
+def _root_field(y):
+    """(local, field) for a field term directly on a local / argument (through derefs), else None"""
+    base = norm(y[1])
+    while base[0] == "deref":
+        base = norm(base[1])
+    if base[0] in ("param", "local"):
+        return (base[1], y[2])
+    return None
+
+
+def _r6_r7(ctx, cg):
+    """R6 a refused query's answer is the query plus a constant: the Extended DNS Error text of every error reply is a literal, so the
+    charge max(2*reply - query, 200) of a REFUSED stays below what a bucket can hold and a quiet source is always answered.
+    R7 there is one limiter for the whole service: created once, when the handler is built — per listener (or per task) the budget
+    towards one source multiplies with the number of listening addresses."""
+    P = ctx.P
+    n = 0
+    for b in P.bodies.values():
+        if not b.id.startswith("erbium::dns::DnsListenerHandler::create_in_error"):
+            continue
+        T = None
+        for bb, tm in b.calls():
+            if (callee_name(tm) or "").endswith("set_extended_dns_error") and len(tm["args"]) >= 3:
+                T = T or terms(P, b)
+                n += 1
+                ctx.saw(b)
+                txt = norm(T.call_args(bb)[2])
+                msgp = set(b.var_places("msg"))
+                def from_query(y):
+                    if y[0] in ("param", "local") and (y[1],) in msgp:
+                        return True
+                    if y[0] == "field":
+                        r = _root_field(y)
+                        return r is not None and ((r[0], "." + str(r[1])) in msgp or (r[0], str(r[1])) in msgp)
+                    return False
+                dep = [y for y in subterms(txt) if from_query(y)]
+                ctx.check(bool(msgp) and not dep, "R6", "error-text-does-not-grow-with-the-query", ctx.where(b, tm["sp"]),
+                          "the EDE text of an error reply must not be computed from the query (is %s): its presentation form can be four times "
+                          "the query's size, the reply's charge then exceeds what a bucket can ever hold, and that source never gets an answer"
+                          % show(txt)[:90])
+    # the free text a refusal carries comes from the server's own vocabulary
+    m = 0
+    for bd, bb, idx, st in find_aggs(P, "erbium::dns::Error"):
+        if st["rv"].get("variant") != "Denied" or "::test" in bd.id:
+            continue
+        m += 1
+        ctx.saw(bd)
+        v = norm(terms(P, bd).rvalue(st["rv"], bb, idx))
+        pay = norm(v[3][0][1]) if v[0] == "agg" and v[3] else ("unknown",)
+        while pay[0] == "call" and len(pay[2]) == 1 and str(pay[1]).rsplit("::", 1)[-1] in ("into", "from", "to_string", "to_owned", "clone"):
+            pay = norm(pay[2][0])
+        while pay[0] in ("ref", "deref"):
+            pay = norm(pay[1])
+        # a copy of another denial's text (clone_out_reply) adds nothing new
+        ctx.check(pay[0] == "const" or "<Denied>" in show(pay), "R6", "denial-text-is-a-literal", ctx.where(bd, st["sp"]),
+                  "Error::Denied carries %s: the text is copied into the REFUSED reply, see error-text-does-not-grow-with-the-query" % show(pay)[:80])
+    if ctx.config in ("default", "dns"):
+        ctx.floor("R6", "extended error texts in the error reply", n, 13)
+        ctx.floor("R6", "places that deny a query with a text", m, 2)
+    ctor = [f for f in P.bodies if f.endswith("dns::IpRateLimiter::new")]
+    sites = [(cb, bb, tm) for f in ctor for cb, bb, tm in cg.callers(f) if "::test" not in cb.id]
+    for cb, bb, tm in sites:
+        ctx.saw(cb)
+        ccfg = cfg_of(cb)
+        in_loop = any(bb in l for l in ccfg.loops_by_header())
+        nested = cb.kind in ("closure", "coroutine") and not (cb.parent in P.bodies and P.bodies[cb.parent].kind in ("fn", "assoc_fn") and cb.kind == "coroutine")
+        ctx.check(not in_loop and not nested, "R7", "one-limiter-for-the-service:%s" % cb.id.split("::{")[0].rsplit("::", 1)[-1], ctx.where(cb, tm["sp"]),
+                  "IpRateLimiter::new() must be called once, straight in the handler's constructor (in a loop: %s, inside a closure / task: %s)" % (in_loop, nested))
+    if ctx.config in ("default", "dns"):
+        ctx.check(len(sites) == 1, "R7", "limiter-created-once", "", "%d creation site(s)" % len(sites))
+
+
 def run(ctx):
     P = ctx.P
     cg = callgraph(P)
+    _r6_r7(ctx, cg)
     # "every refused query still gets an answer or a deliberate drop": a limiter task that waits for a lock it holds does neither
     ctx.include("C07", rules=("R11",))
     _r5_debt(ctx)
